@@ -14,3 +14,11 @@ CASES += [
     dict(id='c20-eq-dtor-early-return', prop='C20', file=MT, expect=None,
          old="   if (joinable())\n      join();", new="   if (!joinable())\n      return;\n   join();"),
 ]
+
+CASES += [
+    dict(id='c20-eq-flag-set-by-exchange', prop='C20', file=MT, expect=None,
+         old="                     flag->store( true, std::memory_order_release);", new="                     (void) flag->exchange( true, std::memory_order_acq_rel);"),
+    dict(id='c20-flag-set-inside-assert', prop='C20', file=MT, expect='R2c',
+         edits=[(MT, "                     flag->store( true, std::memory_order_release);", "                     assert( !flag->exchange( true, std::memory_order_acq_rel));"),
+                (MT, "#include <atomic>", "#include <atomic>\n#include <cassert>")]),
+]
